@@ -11,6 +11,7 @@ import (
 	"os"
 	"os/exec"
 	"path/filepath"
+	"regexp"
 	"runtime"
 	"sort"
 	"strconv"
@@ -300,12 +301,83 @@ func runFetch(c *harness.Ctx) harness.Result {
 			bodies[host] = buf.Bytes()
 			urls = append(urls, fmt.Sprintf("http://%s/pprof/heap?seconds=%d", host, 1+i%7))
 		}
+		// the merged remote profile is also saved locally, under a name of a numbered sequence; other creators of
+		// files of that sequence (a second pprof run fetching from the same service) are busy in the
+		// same directory meanwhile
+		savedRx := regexp.MustCompile(`^Saved profile in (.*)$`)
+		prefix := ""
+		{
+			w := &drv.Session{Flags: &drv.Flags{Bools: map[string]bool{"top": true}, Strs: map[string]string{"output": "out", "symbolize": "none"}, Args: urls[:1]}, RoundTr: hostTransport(bodies), Obj: &binutils.Binutils{}}
+			w.Run()
+			for _, e := range w.UI.Errs {
+				if m := savedRx.FindStringSubmatch(e); m != nil {
+					if pm := regexp.MustCompile(`^(.*\.)[0-9]{3}\.pb\.gz$`).FindStringSubmatch(filepath.Base(m[1])); pm != nil {
+						prefix = pm[1]
+					}
+				}
+			}
+		}
+		stop := make(chan struct{})
+		var cwg sync.WaitGroup
+		var overwritten atomic.Value
+		if prefix != "" {
+			for g := 0; g < 6; g++ {
+				cwg.Add(1)
+				go func(g int) {
+					defer cwg.Done()
+					for k := 0; ; k++ {
+						select {
+						case <-stop:
+							return
+						default:
+						}
+						f, err := driver.VerifNewTempFile(filepath.Join(c.Tmp, "tmp"), prefix, ".pb.gz")
+						if err != nil {
+							continue
+						}
+						token := fmt.Sprintf("creator %d file %d", g, k)
+						f.WriteString(token)
+						f.Close()
+						runtime.Gosched()
+						if b, err := os.ReadFile(f.Name()); err != nil || string(b) != token {
+							overwritten.Store(fmt.Sprintf("%s was created exclusively by another creator and holds %d other bytes now (err=%v): a concurrent save replaced it", f.Name(), len(b), err))
+						}
+						os.Remove(f.Name())
+					}
+				}(g)
+			}
+		}
 		s := &drv.Session{Flags: &drv.Flags{Bools: map[string]bool{"top": true, "functions": true, "flat": true}, Strs: map[string]string{"output": "out", "symbolize": "none"}, Args: urls}, RoundTr: hostTransport(bodies), Obj: &binutils.Binutils{}}
 		rr := s.Run()
+		close(stop)
+		cwg.Wait()
 		c.Stat("free_running_http_fetches", int64(n))
 		if rr.Panic != "" || rr.Err != nil {
 			return harness.Violation("parallel HTTP fetch of %d sources failed: %v %s %v", n, rr.Err, rr.Panic, s.UI.Errs)
 		}
+		if v := overwritten.Load(); v != nil {
+			return harness.Violation("while %d remote profiles were being saved: %s", n, v.(string))
+		}
+		savedNames := map[string]bool{}
+		for _, e := range s.UI.Errs {
+			if m := savedRx.FindStringSubmatch(e); m != nil {
+				if savedNames[m[1]] {
+					return harness.Violation("two of %d remote profiles were reported as saved in the same file %s", n, m[1])
+				}
+				savedNames[m[1]] = true
+				b, err := os.ReadFile(m[1])
+				if err != nil {
+					return harness.Violation("%s is reported as a saved profile but cannot be read: %v", m[1], err)
+				}
+				if _, err := profile.ParseData(b); err != nil {
+					return harness.Violation("%s is reported as a saved profile but does not hold one: %v", m[1], err)
+				}
+			}
+		}
+		if len(savedNames) != 1 {
+			return harness.Violation("%d remote profiles fetched and merged, %d copies reported as saved locally (one expected)", n, len(savedNames))
+		}
+		c.Stat("saved_remote_profiles", 1)
 		out := ""
 		if bf := s.Writer.Files["out"]; bf != nil {
 			out = bf.String()
@@ -851,6 +923,110 @@ func runToolsNM(c *harness.Ctx) harness.Result {
 	return res
 }
 
+// saved copies of remote profiles: forty invocations in a row, each fetching two URL sources and
+// saving the merged profile under the next free name of the numbered sequence, while six other
+// creators keep creating, checking and removing files of the same sequence in the same directory
+func runSaves(c *harness.Ctx) harness.Result {
+	r := c.Rng
+	drv.IsolateEnv(c.Tmp)
+	bodies := map[string][]byte{}
+	var urls []string
+	for i := 0; i < 2; i++ {
+		p := c10.GenProfile(rand.New(rand.NewSource(int64(r.Intn(7)))))
+		for k := int64(1); p.SampleType[0].Type != "samples"; k++ {
+			p = c10.GenProfile(rand.New(rand.NewSource(100 * k)))
+		}
+		var buf bytes.Buffer
+		p.Write(&buf)
+		host := fmt.Sprintf("h%d.test", i)
+		bodies[host] = buf.Bytes()
+		urls = append(urls, "http://"+host+"/pprof/heap")
+	}
+	savedRx := regexp.MustCompile(`^Saved profile in (.*)$`)
+	res := harness.Result{NonTrivial: true, Sig: fmt.Sprint("saves", c.Index)}
+	invoke := func() (string, string) {
+		s := &drv.Session{Flags: &drv.Flags{Bools: map[string]bool{"top": true}, Strs: map[string]string{"output": "out", "symbolize": "none"}, Args: urls}, RoundTr: hostTransport(bodies), Obj: &binutils.Binutils{}}
+		rr := s.Run()
+		if rr.Panic != "" || rr.Err != nil {
+			return "", fmt.Sprintf("fetch failed: %v %s %v", rr.Err, rr.Panic, s.UI.Errs)
+		}
+		for _, e := range s.UI.Errs {
+			if m := savedRx.FindStringSubmatch(e); m != nil {
+				return m[1], ""
+			}
+		}
+		return "", fmt.Sprintf("no 'Saved profile in' message: %v", s.UI.Errs)
+	}
+	first, e := invoke()
+	if e != "" {
+		return harness.Violation("%s", e)
+	}
+	pm := regexp.MustCompile(`^(.*\.)[0-9]{3}\.pb\.gz$`).FindStringSubmatch(filepath.Base(first))
+	if pm == nil {
+		return harness.Result{Verdict: harness.Inconclusive, Detail: "unexpected saved name " + first}
+	}
+	dir, prefix := filepath.Dir(first), pm[1]
+	stop := make(chan struct{})
+	var wg sync.WaitGroup
+	var bad atomic.Value
+	var created int64
+	for g := 0; g < 6; g++ {
+		wg.Add(1)
+		go func(g int) {
+			defer wg.Done()
+			for k := 0; ; k++ {
+				select {
+				case <-stop:
+					return
+				default:
+				}
+				f, err := driver.VerifNewTempFile(dir, prefix, ".pb.gz")
+				if err != nil {
+					continue
+				}
+				token := fmt.Sprintf("creator %d file %d", g, k)
+				f.WriteString(token)
+				f.Close()
+				atomic.AddInt64(&created, 1)
+				runtime.Gosched()
+				if b, err := os.ReadFile(f.Name()); err != nil || string(b) != token {
+					bad.Store(fmt.Sprintf("%s was created exclusively by another creator, which wrote %q into it; it now holds %d other bytes (err=%v): a concurrent save replaced it", f.Name(), token, len(b), err))
+				}
+				os.Remove(f.Name())
+			}
+		}(g)
+	}
+	names := map[string]bool{first: true}
+	msg := ""
+	for it := 0; it < 40 && msg == "" && bad.Load() == nil; it++ {
+		name, e := invoke()
+		switch {
+		case e != "":
+			msg = e
+		case names[name]:
+			msg = fmt.Sprintf("two invocations report their profile as saved in the same file %s", name)
+		default:
+			names[name] = true
+			if b, err := os.ReadFile(name); err != nil {
+				msg = fmt.Sprintf("%s is reported as a saved profile but cannot be read: %v", name, err)
+			} else if _, err := profile.ParseData(b); err != nil {
+				msg = fmt.Sprintf("%s is reported as a saved profile but does not hold one (%d bytes: %q): %v", name, len(b), harness.Trunc(string(b), 60), err)
+			}
+		}
+		c.Stat("saves.invocations", 1)
+	}
+	close(stop)
+	wg.Wait()
+	c.Stat("saves.files_of_other_creators", atomic.LoadInt64(&created))
+	if v := bad.Load(); v != nil && msg == "" {
+		msg = v.(string)
+	}
+	if msg != "" {
+		res.Verdict, res.Detail = harness.Violated, msg
+	}
+	return res
+}
+
 func writeTinyELF(path string) error {
 	// ELF64 header + one PT_LOAD (R+X) at 0x400000, little endian
 	h := make([]byte, 64+56)
@@ -911,6 +1087,7 @@ func init() {
 			{Name: "options", Quick: 16, Thor: 400, Run: runOptions},
 			{Name: "tls", Quick: 16, Thor: 400, Run: c16.RunTLSFree},
 			{Name: "tools-nm", Quick: 12, Thor: 300, Run: runToolsNM},
+			{Name: "saves", Quick: 12, Thor: 300, Run: runSaves},
 		},
 		CaseTimeout:   2 * time.Minute,
 		HangTries:     3,
